@@ -51,22 +51,22 @@ structure LitResult where
 
 /-- ZSTD_decodeLiteralsBlock on `src[start, start+srcSize)`; `blockSizeMax` from the frame, `dstCap` = remaining output room -/
 def decodeLiterals (src : Bytes) (start srcSize : Nat) (ent : Entropy) (blockSizeMax dstCap : Nat) : R LitResult := do
-  if srcSize < MIN_CBLOCK_SIZE then throw .corruption
+  if srcSize < MIN_CBLOCK_SIZE then throw (.corruptionAt "Block:54")
   let b0 := src.u8 start
   let ty := b0 &&& 3
   let lhl := (b0 >>> 2) &&& 3
   let expected := min blockSizeMax dstCap
   if ty == 2 || ty == 3 then
     if ty == 3 && ent.huf.isNone then throw .dictCorrupted
-    if srcSize < 5 then throw .corruption
+    if srcSize < 5 then throw (.corruptionAt "Block:61")
     let lhc := src.le32 start
     let (single, lhSize, litSize, litCSize) :=
       if lhl == 0 || lhl == 1 then (lhl == 0, 3, (lhc >>> 4) &&& 0x3FF, (lhc >>> 14) &&& 0x3FF)
       else if lhl == 2 then (false, 4, (lhc >>> 4) &&& 0x3FFF, lhc >>> 18)
       else (false, 5, (lhc >>> 4) &&& 0x3FFFF, (lhc >>> 22) + (src.u8 (start + 4) <<< 10))
-    if litSize > blockSizeMax then throw .corruption
+    if litSize > blockSizeMax then throw (.corruptionAt "Block:67")
     if !single && litSize < MIN_LITERALS_FOR_4_STREAMS then throw .literalsHeaderWrong
-    if litCSize + lhSize > srcSize then throw .corruption
+    if litCSize + lhSize > srcSize then throw (.corruptionAt "Block:69")
     if expected < litSize then throw .dstTooSmall
     let mut table : Huf.Table := default
     let mut hstart := start + lhSize
@@ -76,28 +76,29 @@ def decodeLiterals (src : Bytes) (start srcSize : Nat) (ent : Entropy) (blockSiz
     else
       let st ← match Huf.readStats src hstart hlen with
         | .ok s => pure s
-        | .error _ => throw .corruption
+        | .error er => throw (.corruptionAt ("Block:79<" ++ er.site))
       table := Huf.buildTable st
-      if st.used > hlen then throw .corruption
+      if st.used > hlen then throw (.corruptionAt "Block:81")
       hstart := hstart + st.used
       hlen := hlen - st.used
     let lits ← match (if single then Huf.decode1 table src hstart hlen litSize ByteArray.empty
                       else Huf.decode4 table src hstart hlen litSize ByteArray.empty) with
       | .ok l => pure l
-      | .error _ => throw .corruption
+      | .error (.lax w) => throw (.lax w)
+      | .error er => throw (.corruptionAt ("Block:87<" ++ er.site))
     return { lits := lits, used := litCSize + lhSize, ent := { ent with huf := some table },
              mode := if ty == 2 then .compressed else .treeless, streams := if single then 1 else 4 }
   else
     let (lhSize, litSize) ←
       if lhl == 0 || lhl == 2 then pure (1, b0 >>> 3)
       else if lhl == 1 then
-        (if ty == 1 && srcSize < 3 then throw .corruption else pure (2, src.le16 start >>> 4))
+        (if ty == 1 && srcSize < 3 then throw (.corruptionAt "Block:94") else pure (2, src.le16 start >>> 4))
       else
-        (if srcSize < (if ty == 1 then 4 else 3) then throw .corruption else pure (3, src.le24 start >>> 4))
-    if litSize > blockSizeMax then throw .corruption
+        (if srcSize < (if ty == 1 then 4 else 3) then throw (.corruptionAt "Block:96") else pure (3, src.le24 start >>> 4))
+    if litSize > blockSizeMax then throw (.corruptionAt "Block:97")
     if expected < litSize then throw .dstTooSmall
     if ty == 0 then
-      if litSize + lhSize > srcSize then throw .corruption
+      if litSize + lhSize > srcSize then throw (.corruptionAt "Block:100")
       return { lits := src.extract (start + lhSize) (start + lhSize + litSize), used := lhSize + litSize, ent := ent, mode := .raw, streams := 1 }
     else
       let byte := UInt8.ofNat (src.u8 (start + lhSize))
@@ -108,20 +109,20 @@ def buildSeqTable (mode : Nat) (src : Bytes) (ip iend : Nat) (maxSym maxLog : Na
     (dflt : List SeqCell) (dfltLog : Nat) (prev : Array SeqCell) (prevLog : Nat) (fseValid : Bool) :
     R (Array SeqCell × Nat × Nat) := do
   if mode == 1 then
-    if ip ≥ iend then throw .srcSizeWrong
+    if ip ≥ iend then throw (.srcSizeWrongAt "Block:111")
     let sym := src.u8 ip
-    if sym > maxSym then throw .corruption
+    if sym > maxSym then throw (.corruptionAt "Block:113")
     return (FSE.rleSeqTable sym base bits, 0, 1)
   else if mode == 0 then
     return (dflt.toArray, dfltLog, 0)
   else if mode == 3 then
-    if !fseValid then throw .corruption
+    if !fseValid then throw (.corruptionAt "Block:118")
     return (prev, prevLog, 0)
   else
     let nc ← match FSE.readNCount src ip (iend - ip) maxSym with
       | .ok n => pure n
-      | .error _ => throw .corruption
-    if nc.tableLog > maxLog then throw .corruption
+      | .error er => throw (.corruptionAt ("Block:123<" ++ er.site))
+    if nc.tableLog > maxLog then throw (.corruptionAt "Block:124")
     return (FSE.buildSeqTable nc.norm nc.tableLog base bits, nc.tableLog, nc.used)
 
 /-- output under construction: `out` holds everything regenerated so far (all frames), `frameStart` the
@@ -145,35 +146,35 @@ def copyMatch (dict : Bytes) (o : ByteArray) (frameStart off ml : Nat) : ByteArr
 /-- ZSTD_decompressBlock_internal on the block body `src[start, start+cSize)` -/
 def decodeBlock (src : Bytes) (start cSize : Nat) (ent : Entropy) (dict : Bytes) (o : Out) (blockSizeMax : Nat) :
     R (ByteArray × Entropy × Trace) := do
-  if cSize > blockSizeMax then throw .srcSizeWrong
+  if cSize > blockSizeMax then throw (.srcSizeWrongAt "Block:148")
   let dstCap := o.cap - o.out.size
   let lr ← decodeLiterals src start cSize ent blockSizeMax dstCap
   let mut ip := start + lr.used
   let iend := start + cSize
   let mut tr : Trace := { litMode := lr.mode, litStreams := lr.streams, litSize := lr.lits.size }
   -- ZSTD_decodeSeqHeaders
-  if iend - ip < MIN_SEQUENCES_SIZE then throw .srcSizeWrong
+  if iend - ip < MIN_SEQUENCES_SIZE then throw (.srcSizeWrongAt "Block:155")
   let mut nbSeq := src.u8 ip
   ip := ip + 1
   if nbSeq > 0x7F then
     if nbSeq == 0xFF then
-      if ip + 2 > iend then throw .srcSizeWrong
+      if ip + 2 > iend then throw (.srcSizeWrongAt "Block:160")
       nbSeq := src.le16 ip + LONGNBSEQ
       ip := ip + 2
     else
-      if ip ≥ iend then throw .srcSizeWrong
+      if ip ≥ iend then throw (.srcSizeWrongAt "Block:164")
       nbSeq := ((nbSeq - 0x80) <<< 8) + src.u8 ip
       ip := ip + 1
   tr := { tr with nbSeq := nbSeq }
   let mut e := lr.ent
   let mut out := o.out
   if nbSeq == 0 then
-    if ip != iend then throw .corruption
+    if ip != iend then throw (.corruptionAt "Block:171")
     if lr.lits.size > dstCap then throw .dstTooSmall
     return (out ++ lr.lits, e, tr)
-  if ip + 1 > iend then throw .srcSizeWrong
+  if ip + 1 > iend then throw (.srcSizeWrongAt "Block:174")
   let mb := src.u8 ip
-  if mb &&& 3 != 0 then throw .corruption
+  if mb &&& 3 != 0 then throw (.corruptionAt "Block:176")
   ip := ip + 1
   let (llT, llLog, u1) ← buildSeqTable (mb >>> 6) src ip iend MaxLL LLFSELog LL_base LL_bits LL_defaultDTable LL_DEFAULTNORMLOG e.ll e.llLog e.fseValid
   ip := ip + u1
@@ -187,7 +188,7 @@ def decodeBlock (src : Bytes) (start cSize : Nat) (ent : Entropy) (dict : Bytes)
   -- ZSTD_decompressSequences
   let r0 ← match BitR.init src ip (iend - ip) with
     | .ok r => pure r
-    | .error _ => throw .corruption
+    | .error er => throw (.corruptionAt ("Block:190<" ++ er.site))
   let (sLL0, r1) := r0.read llLog
   let (sOF0, r2) := r1.read ofLog
   let (sML0, r3) := r2.read mlLog
@@ -246,14 +247,14 @@ def decodeBlock (src : Bytes) (start cSize : Nat) (ent : Entropy) (dict : Bytes)
       r := r'''
     -- ZSTD_execSequence
     if llen + mlen > o.cap - out.size then throw .dstTooSmall
-    if llen > lr.lits.size - litPos then throw .corruption
+    if llen > lr.lits.size - litPos then throw (.corruptionAt "Block:249")
     let pos := out.size + llen - o.frameStart
-    if offset > pos + dict.size then throw .corruption
+    if offset > pos + dict.size then throw (.corruptionAt "Block:251")
     out := out ++ lr.lits.extract litPos (litPos + llen)
     litPos := litPos + llen
     out := copyMatch dict out o.frameStart offset mlen
     seqs := seqs.push { ll := llen, ml := mlen, offset := offset, ofValue := ofValue }
-  if !r.atEnd then throw .corruption
+  if !r.atEnd then throw (.corruptionAt "Block:256")
   let lastLL := lr.lits.size - litPos
   if lastLL > o.cap - out.size then throw .dstTooSmall
   out := out ++ lr.lits.extract litPos lr.lits.size
